@@ -356,8 +356,14 @@ func (r *run) deliver() (*capnp.Message, string) {
 	case k == 2 || k == 3:
 		frame := wire.BuildFrame(r.segs)
 		if s.Chance("segtable-tamper", 1, 4) && len(frame) >= 8 {
-			at := s.Choice("tamper-at", 8)
-			frame[at] ^= 1 << uint(s.Choice("tamper-bit", 8))
+			// tamper-at 0..7: flip one bit of the first header word; 8..11: boundary values of the
+			// segment-count field (the arithmetic on count+1 and on the header size must not wrap)
+			if at := s.Choice("tamper-at", 12); at < 8 {
+				frame[at] ^= 1 << uint(s.Choice("tamper-bit", 8))
+			} else {
+				binary.LittleEndian.PutUint32(frame, []uint32{0xffffffff, 0xfffffffe, 0x7fffffff, 0x00010000}[at-8])
+				s.Probe("segment_count_boundary_value")
+			}
 			s.Fault("segtable_tamper")
 		}
 		if k == 3 {
